@@ -152,9 +152,11 @@ func (a *Analyzer) Analyze(constructor any) (*ConstructorInfo, error) {
 		cacheKey = reflect.ValueOf(typ).Pointer()
 	}
 
-	// Check cache first
+	// Check cache first. Function values with different signatures can share
+	// one code pointer (reflect.MakeFunc), so the cached analysis only applies
+	// to a constructor of the same type.
 	a.mu.RLock()
-	if cached, ok := a.cache[cacheKey]; ok {
+	if cached, ok := a.cache[cacheKey]; ok && cached.Type == typ {
 		a.mu.RUnlock()
 		return cached, nil
 	}
